@@ -331,3 +331,33 @@ package wal
 //@ requires forall i int64, j int64 :: t.wal.firstOffset.v <= i && i <= j && j <= t.wal.lastSyncedOffset.v ==> tsKey(t.wal, i) <= tsKey(t.wal, j)
 //@ ensures t.wal.firstOffset.v == old(t.wal.firstOffset.v) || (t.wal.firstOffset.v <= old(t.commitOffsetProvider.CommitOffset()) && t.wal.firstOffset.v <= old(t.wal.lastSyncedOffset.v))
 //@ ensures t.wal.lastAppendedOffset.v == old(t.wal.lastAppendedOffset.v) && t.wal.lastSyncedOffset.v == old(t.wal.lastSyncedOffset.v)
+
+// ---------------------------------------------------------------------------
+// Sync path and recovery
+
+//@ func wal.doSync
+//@ property C09
+//@ requires callback != nil
+//@ callback callback preserves fields(wal), fields(readWriteSegment)
+//@ ensures !t.syncData ==> t.lastSyncedOffset.v == t.lastAppendedOffset.v
+//@ ensures t.lastAppendedOffset.v == old(t.lastAppendedOffset.v) && t.firstOffset.v == old(t.firstOffset.v)
+//@ ensures t.syncData ==> t.lastSyncedOffset.v == old(t.lastSyncedOffset.v)
+
+//@ func wal.AppendAndSync
+//@ property C09 C08
+//@ requires walInv(t) && entry != nil && entry.Offset < 4611686018427387903 && callback != nil
+//@ callback callback preserves fields(wal), fields(readWriteSegment)
+//@ ensures t.lastAppendedOffset.v == old(t.lastAppendedOffset.v) || (t.lastAppendedOffset.v == old(entry.Offset) && (old(t.lastAppendedOffset.v) == -1 || old(entry.Offset) == old(t.lastAppendedOffset.v) + 1))
+//@ ensures t.lastSyncedOffset.v == old(t.lastSyncedOffset.v) || (!t.syncData && t.lastSyncedOffset.v == t.lastAppendedOffset.v)
+
+//@ func wal.recoverWal
+//@ property C09 C10
+//@ requires walMetrics(t) && t.ctx != nil && t.readOnlySegments != nil && t.segmentSize <= 2147483647
+//@ assume at call listAllSegments#0: err == nil ==> forall k int :: 0 <= k && k < len(segments) ==> 0 <= segments[k] && segments[k] < 4611686018427387904 because "segment file names are the non-negative base offsets this WAL wrote"
+//@ ensures result == nil ==> t.currentSegment != nil && rwInv(curSeg(t)) && t.lastAppendedOffset.v == curSeg(t).lastOffset && t.lastSyncedOffset.v == t.lastAppendedOffset.v && -1 <= t.firstOffset.v
+
+//@ func listAllSegments
+//@ trusted
+//@ pure
+//@ nondet
+//@ note directory listing and Sscanf of file names are not verified
